@@ -342,6 +342,15 @@ class LDAPSession:
         self,
         msg: LDAPMessage,
     ) -> int:
+        self._validate_send(msg)
+        self._outgoing_buffer.extend(msg.pack(self._packing_options))
+
+        return msg.message_id
+
+    def _validate_send(
+        self,
+        msg: LDAPMessage,
+    ) -> None:
         if self.state == SessionState.CLOSED:
             raise LDAPError("LDAP session is CLOSED, cannot send any new messages.")
 
@@ -355,10 +364,6 @@ class LDAPSession:
 
         elif self.state == SessionState.BEFORE_OPEN:
             self.state = SessionState.OPENED
-
-        self._outgoing_buffer.extend(msg.pack(self._packing_options))
-
-        return msg.message_id
 
 
 class LDAPClient(LDAPSession):
@@ -939,11 +944,16 @@ class LDAPServer(LDAPSession):
     ) -> int:
         msg_id = super()._send(msg)
 
-        if not isinstance(msg, UnbindRequest):
-            if msg_id in self._outstanding_requests:
-                if not isinstance(msg, (SearchResultEntry, SearchResultReference)):
-                    self._outstanding_requests.remove(msg_id)
-            else:
-                raise LDAPError(f"Message {msg} is a response to an unknown request")
+        if not isinstance(msg, (UnbindRequest, SearchResultEntry, SearchResultReference)):
+            self._outstanding_requests.remove(msg_id)
 
         return msg_id
+
+    def _validate_send(
+        self,
+        msg: LDAPMessage,
+    ) -> None:
+        super()._validate_send(msg)
+
+        if not isinstance(msg, UnbindRequest) and msg.message_id not in self._outstanding_requests:
+            raise LDAPError(f"Message {msg} is a response to an unknown request")
